@@ -33,6 +33,52 @@ def run(chk):
             sc.compare_with_model(chk, sims)
             sims = []
     sc.compare_with_model(chk, sims)
+    # many waiting bundles: the receive queue must list them in arrival order (ids of differing digit counts)
+    sims = []
+    for i in range(4 if tier == 'quick' else 40):
+        sim = sc.ts.Sim(sc.gen_cfg(rng), sc.gen_cfg(rng))
+        for ep in sim.eps():
+            ep.popped = {}
+        sim.establish(rng)
+        sent = {'a': [], 'b': []}
+        meta = {'cfg_a': sim.a.cfg, 'cfg_b': sim.b.cfg, 'flavour': 'many-waiting', 'term': [], 'hard': False, 'quiescent': False}
+        k = rng.choice([11, 12, 15, 23]) if tier == 'quick' else rng.choice([11, 21, 101, 120])
+        for who in ('a', 'b') if rng.random() < 0.5 else ('a',):
+            ep = sim.a if who == 'a' else sim.b
+            for j in range(k):
+                d = bytes([j % 251]) * rng.choice([0, 1, 2, 3])
+                sim.send(ep, d)
+                sent[who].append(d)
+                if rng.random() < 0.3:
+                    sim.step_random(rng)
+        meta['quiescent'] = sim.run_quiescent(rng, limit=60000)
+        bad = []
+        for ep in sim.eps():
+            if ep.closed():
+                continue
+            sim.query(ep, 'rxq')
+            order = [tm.arg(a[0]) for (_i, _n, a) in tm.signals(sim, ep.name, 'recv_bundle_finished')]
+            got = ep.obs[-1]['ret'].get('ss') if ep.obs[-1].get('ret') else None
+            if got != order:
+                bad.append(('C01:receive-queue-not-in-arrival-order', '%s lists its receive queue as %s; the bundles finished in the order %s'
+                            % (ep.name, str(got)[:120], str(order)[:120])))
+            # drain in listed order: the data must come out in the order it was queued by the peer
+            peer = 'b' if ep.name == 'a' else 'a'
+            out = []
+            for tid in (got or []):
+                sim.pop(ep, int(tid))
+                r = ep.obs[-1].get('ret')
+                out.append(bytes.fromhex(r['b']) if r and 'b' in r else None)
+                if out[-1] is not None:
+                    ep.popped[int(tid)] = out[-1]
+            if out != sent[peer] and got == order:
+                bad.append(('C01:reordered-or-corrupted', 'popping %s\'s queue in listed order gives other data than was queued' % ep.name))
+        bad += tm.mon_c01(sim, sent, expect_complete=meta['quiescent'])
+        chk.case({'many_waiting': k, 'lens': [len(sent['a']), len(sent['b'])], 'events': len(sim.log)})
+        chk.count('many-waiting')
+        sc.report(chk, 'C01', bad, sim, sent, meta)
+        sims.append((sim, 'many-waiting %d' % i))
+    sc.compare_with_model(chk, sims)
     chk.assumptions += ['TLS disabled (policy part is C15); GLib priorities not imposed: any order of enabled sources is explored',
                         'timers disabled in C01 runs (keepalive = idle = 0); C14 covers them']
 
